@@ -92,7 +92,6 @@ def run_probe(prop, pairs, max_devices=24):
             if known and "reached the interface at" in why and prop in ("C13", "C04"):
                 # the address does not fit the address type and the final cast wraps: the static oracle's
                 # classification of the same definition (F6a / F6b: the range analysis missed the instance) applies
-                import oracles
                 st = oracles.check(prop, c, a, mf)
                 if st and st.get("finding") in ("F6a-minmax-ignores-enclosing-block-repeat", "F6b-minmax-ignores-block-ref-children"):
                     fid = st["finding"]
